@@ -460,6 +460,8 @@ def run_property(pid, tier, seed, out=print):
     for r in results:
         for k, v in (r.get("coverage_extra") or {}).items():
             ev["coverage"][k] = v
+    if hasattr(mod, "summarise"):
+        ev["coverage"].update(mod.summarise(merged["events"]))
     os.makedirs(EVIDENCE_DIR, exist_ok=True)
     with open(os.path.join(EVIDENCE_DIR, "%s.json" % pid), "w") as f:
         json.dump(ev, f, indent=1, sort_keys=True, default=str)
